@@ -35,17 +35,14 @@ pub fn budget(prop: &str, tier: &str, samples: &Samples) -> Budget {
         "C07" => {
             let n = sc(if thorough { 60_000_000 } else { 2_000_000 });
             // + huge-table images (> 0xff00 sections, the three ways of naming the shstrtab)
-            let extra = if thorough { 24 } else { 6 };
+            let extra = crate::sweep::sweep_cases() + if thorough { 24 } else { 6 };
             Budget { runs: n + extra, exhaustive: 0, images: 0, base_runs: n }
         }
         #[cfg(feature = "stream")]
         "C08" => {
             let n = sc(if thorough { 60_000_000 } else { 2_000_000 });
-            let extra = if thorough {
-                crate::sweep::sweep_cases() + crate::sweep::HUGE_CASES
-            } else {
-                crate::sweep::sweep_cases() / 8 + 2
-            };
+            let extra = crate::sweep::sweep_cases()
+                + if thorough { crate::sweep::HUGE_CASES } else { 2 };
             Budget { runs: n + extra, exhaustive: 0, images: 0, base_runs: n }
         }
         "C17" => {
@@ -123,6 +120,11 @@ pub fn run_index(
             crate::report::add_fault_counters(rep, &f.counters);
             for (k, n) in f.probes.iter() {
                 rep.add(&format!("probe.{}", k), *n);
+            }
+            for i in 0..17 {
+                for j in 0..5 {
+                    rep.op_grid[i][j] += f.op_grid[i][j] as u64;
+                }
             }
             rep.add("scoped_out_queries", f.scoped_out);
             rep.add("compared_queries", f.compared);
